@@ -18,6 +18,8 @@ import Adsg.Model.TimeLimiter
 import Adsg.Model.Sup
 import Adsg.Model.Fast
 import Adsg.Model.Proc
+import Adsg.Model.Design
+import Adsg.Model.Decode
 open Lean Adsg
 
 namespace Drv
@@ -427,6 +429,74 @@ def opRestrict (j : Json) : R Json := do
     ("rejected", jList (fun o => Json.bool (o == Adsg.Proc.Out.rejected)) outs),
     ("rows", jList (jList (jOpt jNat)) (Adsg.Proc.restrictRows P st.fixed))]
 
+
+/-! ### whole design space / whole decode (Design.lean, Decode.lean) -/
+
+def dvNodeSpec (j : Json) : R DVNodeSpec := do
+  return { node := ← nat (← field j "node"), dom := ← dvDom (← field j "dom") }
+
+def problem (j : Json) : R Problem := do
+  return { g := ← dsg (← field j "g"), conn := ← fieldD j "conn" (listOf connChoice) [],
+           dvs := ← fieldD j "dvs" (listOf dvNodeSpec) [] }
+
+def jDesign (d : Design) : Json :=
+  Json.mkObj [("row", jList (jOpt jNat) d.row), ("mats", jList jMat d.mats), ("dvals", jList (jOpt jInt) d.dvals)]
+
+/-- `allDesigns`, `nValid`, `nValidFormula` of a problem (designs listed only up to `max`). -/
+def opDesignSpace (j : Json) : R Json := do
+  let P ← problem j
+  let mx ← fieldD j "max" nat 3000
+  let nf := nValidFormula P
+  let ds := if nf ≤ mx then some (allDesigns P) else none
+  return Json.mkObj [("wf", Json.bool P.g.WF), ("n_formula", jNat nf),
+    ("n_valid", jOpt (fun l : List Design => jNat l.length) ds),
+    ("designs", jOpt (jList jDesign) ds)]
+
+def jDecoded (d : Decoded) : Json :=
+  Json.mkObj [("design", jDesign d.design), ("vals", jList (jOpt jInt) d.vals), ("x", jList jInt d.x),
+    ("act", jList Json.bool d.act)]
+
+/-- One decode per query with the oracles of that decode: the assignment the selection encoder
+    corrected to (`a`), the table of each connection choice for that architecture and the row the
+    imputer picked. The contract clauses that concern this decode are evaluated and returned. -/
+def opDecodeFull (j : Json) : R Json := do
+  let P ← problem j
+  let selVars ← listOf nat (← field j "sel_vars")
+  let connNOpts ← listOf (listOf nat) (← field j "conn_nopts")
+  let qs ← listOf (fun q => do
+      let x ← listOf int (← field q "x")
+      let a ← assign (← field q "a")
+      let tabs ← listOf (optOf table) (← field q "tables")
+      let imps ← listOf nat (← field q "imps")
+      let shown ← listOf bool (← field q "shown")
+      let E : Enc := { selVars := selVars, pick := fun _ => a, selShown := fun _ => shown, connNOpts := connNOpts,
+                       tables := tabs.map (fun t => fun _ => t), imps := imps.map (fun i => fun _ _ => i) }
+      let X := closure P.g a
+      let tabOK := (List.range P.conn.length).map (fun k =>
+        match (tabs[k]?).join with
+        | none => Json.mkObj [("absent", Json.bool (!connPresent X (P.conn.getD k default)))]
+        | some t =>
+          let sets := connSets X (P.conn.getD k default)
+          let ms := t.map (·.2)
+          Json.mkObj [("wf", Json.bool (t.WF (connNOpts.getD k []))),
+            ("mats_exact", Json.bool (ms.all (sets.contains ·) && sets.all (ms.contains ·))),
+            ("imp_lt", Json.bool (decide (imps.getD k 0 < t.length))),
+            ("pos", Json.bool ((connNOpts.getD k []).all (0 < ·)))])
+      let r := decode P E x
+      return Json.mkObj [("feasible", Json.bool (feasibleAssign P a)),
+        ("len_ok", Json.bool (x.length == E.nVars P)),
+        ("sel_ok", Json.bool (selVars.all (fun c => c < P.g.sel.length && 0 < (P.g.sel.getD c default).opts.length))),
+        ("tables", Json.arr tabOK.toArray),
+        ("conn_pos", Json.bool (connNOpts.all (fun ns => ns.all (0 < ·)))),
+        ("impl", jDecoded r), ("ref", jDecoded (decodeRef P E x)),
+        ("valid", Json.bool (validDesign P r.design)),
+        ("in_bounds", Json.bool (inBounds (declBounds P E) r.x)),
+        ("canon", jList jInt (canonVals P E)),
+        ("nodes", jList jNat (sortNat (decodeNodes P E x)))])
+    (← field j "queries")
+  return Json.mkObj [("wf", Json.bool P.g.WF), ("dv_wf", Json.bool (P.dvs.all (·.dom.WF))),
+    ("results", Json.arr qs.toArray)]
+
 def dispatch (op : String) (j : Json) : R Json :=
   match op with
   | "ping" => return Json.str "pong"
@@ -446,6 +516,8 @@ def dispatch (op : String) (j : Json) : R Json :=
   | "sup_resolve" => opSupResolve j
   | "neighborhood" => opNeighborhood j
   | "restrict" => opRestrict j
+  | "design_space" => opDesignSpace j
+  | "decode_full" => opDecodeFull j
   | "get_best" => opGetBest j
   | "correct_value" => opCorrect j
   | "decode_dv" => opDecodeDV j
